@@ -384,7 +384,10 @@ def monitor_roundtrip(case, data):
         return ("C33/roundtrip-manifest", "manifest restored as %r" % (m,))
     has_encrypted = bool(pw) and any(w[2] is not None for w in want)
     if has_encrypted:
-        for other in [pw + "x", "", None] + [p for p in PWS if p != pw]:
+        import unicodedata as _ud
+        near = [pw + "\n", " " + pw, pw + " ", "\t" + pw, pw.upper(), _ud.normalize("NFD", pw), _ud.normalize("NFKC", pw),
+                pw.strip(), pw[:-1]]
+        for other in [pw + "x", "", None] + [p for p in PWS if p != pw] + [q for q in near if q != pw]:
             try:
                 r2 = A.read_backup_archive(data, encryption_password=other)
             except (InvalidTag, ValueError):
